@@ -132,6 +132,9 @@ def setIdx (l : List α) (i : Int) (v : α) : Option (List α) :=
 
 def len (l : List α) : Int := (l.length : Int)
 
+/-- `l[:-k]` for a literal `k > 0` -/
+def dropEnd (l : List α) (k : Nat) : List α := l.take (l.length - k)
+
 /-- `range(n)` -/
 def range (n : Int) : List Int := (List.range n.toNat).map (fun (k : Nat) => (k : Int))
 
